@@ -283,6 +283,16 @@ def check_history(case, stats):
                         break
                 gen.close()
                 return ("partial", [e for e in got if "source" not in e])
+            if counter[0] - 1 in case.get("in_thread", []):
+                # this source is pulled through the stream by a worker thread (one at a time - no concurrency), the others by the main thread
+                import threading
+                box = []
+                th = threading.Thread(target=lambda: box.append(run_stream(ev, t)))
+                th.start()
+                th.join(120)
+                if not box:
+                    raise Violation(case, "the stream did not finish source #%d when driven from a worker thread" % (counter[0] - 1))
+                return box[0]
             return run_stream(ev, t)
         fresh = lambda t: run_stream(gh.GherkinEvents(gh.GherkinEvents.Options(True, True, True)), t)
     else:
@@ -345,7 +355,7 @@ def g_history(s):
         else:
             texts.append(noisy.g_noisy(s)[0])
     return {"sub": "history", "api": s.choice(["stream", "pair"]), "texts": texts, "new_generator_before": [i for i in range(1, n) if s.int(4) == 0],
-            "late_pickles": (s.int(n) if s.int(3) == 0 else None), "abandon": [i for i in range(n - 1) if s.int(4) == 0], "take": s.rng(1, 4)}
+            "late_pickles": (s.int(n) if s.int(3) == 0 else None), "abandon": [i for i in range(n - 1) if s.int(4) == 0], "take": s.rng(1, 4), "in_thread": [i for i in range(n) if s.int(4) == 0]}
 
 
 def unit_history(a):
